@@ -319,8 +319,8 @@ type world struct {
 	// Usage bookkeeping: the last using / used resource each Usage recorded in its resourceRefs
 	lastBy, lastOf map[verifsim.Key]verifsim.Key
 	// class counters (evidence labels)
-	usageUnresolvedAtDelete, usageDelRecUnresolved, usageDelRecUnresolvedFault, usageLabelMismatch int
-	hashCache                                                                                      map[uintptr]cachedHash
+	usageUnresolvedAtDelete, usageDelRecUnresolved, usageDelRecUnresolvedFault, usageLabelMismatch, usageDelRecForeignUsing int
+	hashCache                                                                                                               map[uintptr]cachedHash
 }
 
 type worldSnap struct {
@@ -935,7 +935,9 @@ func (w *world) composedKeys(i int, tmpl string) []verifsim.Key {
 	}
 	var out []verifsim.Key
 	for k, o := range w.sim.State() {
-		if verifsim.Labels(o)[labelComposite] == xk.Name && verifsim.Annotations(o)[annResName] == tmpl {
+		// composed names are generated from the XR's name; the fallback keeps finding a composed resource
+		// whose crossplane.io/composite label was stripped or changed
+		if verifsim.Annotations(o)[annResName] == tmpl && (verifsim.Labels(o)[labelComposite] == xk.Name || strings.HasPrefix(k.Name, xk.Name+"-")) {
 			out = append(out, k)
 		}
 	}
@@ -1290,6 +1292,9 @@ func (w *world) doInner(a act) string {
 			return "absent"
 		}
 		unresolved := w.usageClass(ks[0])
+		if w.usageForeignUsing(ks[0]) != "" {
+			w.usageDelRecForeignUsing++
+		}
 		run := w.newRun(actorUsage, a)
 		defer func() {
 			if unresolved {
@@ -1449,6 +1454,30 @@ func (w *world) doInner(a act) string {
 			return "refused: " + err.Error()
 		}
 		return "ok"
+	case "relabel-using":
+		// The using resource stops carrying the Usage's crossplane.io/composite value: the label is stripped
+		// (Obj "none": as on a hand-created resource) or names another root composite (Obj "other").
+		if !w.u.Usage || a.I >= w.u.Claims {
+			return "disabled"
+		}
+		n := 0
+		for _, k := range w.composedKeys(a.I, "r1") {
+			u := verifsim.U(w.sim.Get(k))
+			l := u.GetLabels()
+			if a.Obj == "other" {
+				l[labelComposite] = "some-other-root-xr"
+			} else {
+				delete(l, labelComposite)
+			}
+			u.SetLabels(l)
+			if err := w.sim.Client(actorUser).Update(ctx, u); err == nil {
+				n++
+			}
+		}
+		if n == 0 {
+			return "idle"
+		}
+		return "ok"
 	case "label-using": // the using resource gets the label the edited selector asks for
 		if !w.u.Usage || a.I >= w.u.Claims {
 			return "disabled"
@@ -1535,6 +1564,33 @@ func (w *world) usageClass(k verifsim.Key) bool {
 		}
 	})
 	return live
+}
+
+// usageForeignUsing: for a terminating, finalized, composed Usage whose using resource is alive, says how
+// that resource's crossplane.io/composite label relates to the Usage's: "" (same value, or not in this
+// class at all), "none" (no label) or "other" (another root's value).
+func (w *world) usageForeignUsing(k verifsim.Key) string {
+	u := w.sim.Get(k)
+	if u == nil || !verifsim.Terminating(u) || !has(verifsim.Finalizers(u), finUsage) || verifsim.Labels(u)[labelComposite] == "" {
+		return ""
+	}
+	out := ""
+	w.sim.With(func(v *verifsim.View) {
+		for _, r := range w.usingResources(v, k, u) {
+			var rk verifsim.Key
+			f := strings.SplitN(strings.SplitN(r, " ", 2)[0], "/", 4)
+			if len(f) == 4 {
+				rk = verifsim.Key{Group: f[0], Kind: f[1], Namespace: f[2], Name: f[3]}
+			}
+			switch l, ok := verifsim.Labels(v.Get(rk))[labelComposite]; {
+			case !ok:
+				out = "none"
+			case l != verifsim.Labels(u)[labelComposite]:
+				out = "other"
+			}
+		}
+	})
+	return out
 }
 
 func (w *world) newRun(actor string, a act) *verifsim.Run {
